@@ -308,21 +308,45 @@ func (f *Flat) splice(N *GNode, call *ast.CallExpr, form int, negated bool, call
 		}
 	}
 	args := argExprs(call, callee)
+	// found(r.storage.take(id)): the results of the inner call are the parameters, in order
+	var spread *ast.CallExpr
+	if len(call.Args) == 1 && ftype.Params.NumFields() > 1 {
+		if ic, ok := ast.Unparen(call.Args[0]).(*ast.CallExpr); ok {
+			if tup, ok := info.Types[ic].Type.(*types.Tuple); ok && tup.Len() == ftype.Params.NumFields() {
+				spread = ic
+			}
+		}
+	}
 	if frecv != nil && len(frecv.List) == 1 && len(frecv.List[0].Names) == 1 {
 		bind(frecv.List[0].Names[0], args[-1])
 	}
 	i := 0
+	var spreadLhs []ast.Expr
 	for _, fl := range ftype.Params.List {
 		if len(fl.Names) == 0 {
 			i++
+			spreadLhs = append(spreadLhs, &ast.Ident{NamePos: call.Pos(), Name: "_"})
 			continue
 		}
 		for _, nm := range fl.Names {
-			if nm.Name != "_" {
+			if spread != nil {
+				spreadLhs = append(spreadLhs, nm)
+			} else if nm.Name != "_" {
 				bind(nm, args[i])
 			}
 			i++
 		}
+	}
+	entry := cf.Entry + off
+	if spread != nil {
+		// an extra node between the binding of the receiver and the callee's entry; it is a single-call assignment,
+		// so the inner call is spliced in its turn when the loop of inline() reaches it
+		sn := &GNode{ID: len(f.Nodes), Block: N.Block, Synth: "bind",
+			Ast: &ast.AssignStmt{Lhs: spreadLhs, TokPos: call.Lparen, Tok: token.DEFINE, Rhs: []ast.Expr{spread}}}
+		sn.Succs = []Edge{{To: entry}}
+		f.Nodes = append(f.Nodes, sn)
+		f.Inl[sn.ID] = InlInfo{Callee: callee.Key, Site: N.ID}
+		entry = sn.ID
 	}
 	if len(lhs) > 0 {
 		N.Ast = &ast.AssignStmt{Lhs: lhs, TokPos: call.Lparen, Tok: token.DEFINE, Rhs: rhs}
@@ -330,7 +354,7 @@ func (f *Flat) splice(N *GNode, call *ast.CallExpr, form int, negated bool, call
 	} else {
 		N.Ast = nil
 	}
-	N.Succs = []Edge{{To: cf.Entry + off}}
+	N.Succs = []Edge{{To: entry}}
 	wasExit := N.Exit
 	N.Exit = false
 	N.IsCond = false
